@@ -1303,7 +1303,10 @@ def run(ctx):
     from . import C14
 
     from ..formula import imported
+    from ._treespec import rule_TS
 
+    # the node update, the refresh walks and the queries they rest on, against the reference semantics
+    rule_TS(ctx, owners=["tree_node.TreeNode", "visitors.PostOrderNodeUpdater", "tree.Tree"])
     ctx._own_rules = set(ctx.rule_min)
     imported(ctx, C14.rule_K2)
     imported(ctx, C14.rule_K3)
